@@ -281,6 +281,14 @@ Theorem C17_deque_instrumentation_erases : forall k progs sched,
 Proof. exact dq_run_i_erase. Qed.
 Print Assumptions C17_deque_instrumentation_erases.
 
+(* the no-reuse guard is a special case of the guard of 2.4: a run in which the pool never
+   re-allocates a chunk never raises [aba] (a link CAS succeeds only while its snapshot is current,
+   and then the epoch of its target is the one read before) *)
+Theorem C17_deque_noreuse_implies_aba_free : forall k progs sched,
+  greuse (snd (fst (dq_run_i sched k progs))) = false -> aba (fst (dq_run sched k progs)) = false.
+Proof. exact noreuse_implies_aba_free. Qed.
+Print Assumptions C17_deque_noreuse_implies_aba_free.
+
 (* (1) Michael's chain invariant ([chain_invariant], Proofs/DequeLinProofs.v): the anchor points at
    the two ends of a chain c that is doubly linked from left to right, except possibly the outward
    link of the old end node next to a freshly pushed end node while the status is rpush/lpush; all
